@@ -133,7 +133,7 @@ def cases(tier, seed, prop):
                         else: seq = [[e, None]]
                         out.append({'seq': seq, 'c': {}, 'g': 'forms'})
         # large counts without any configured limit: "exactly N copies" has no small built-in ceiling
-        for (n1, n2) in ((1200, None), (40, 30), (1, 2500)) + (() if tier == 'quick' else ((20000, None), (300, 120))):
+        for (n1, n2) in ((1200, None), (40, 30), (1, 2500)) + (() if tier == 'quick' else ((12000, None), (200, 60))):
             e = {'k': 'elem', 'name': 'x', 'mentions': [('attr', 'title', 'v$', 'raw')], 'text': None, 'rep': n1, 'slash': False}
             if n2 is None: seq = [[e, None]]
             else: seq = [[{'k': 'group', 'body': [[e, None]], 'rep': n2}, None]]
